@@ -26,6 +26,7 @@ def run(ctx, rep):
     _builtins.run(F, rep, "C13.builtin", "list+map")
     list_equality(F, rep)
     value_equality(F, rep)
+    element_store(F, rep)
     if _casts is not None:
         _casts.run_c13(F, rep)
 
@@ -112,3 +113,50 @@ def value_equality(F, rep):
     users = [g for g in [run] + F.closures_of(run) if g.calls_to("bytecode::variables::primitive::Primitive::equals")]
     rep.ob("C13.value-equality", "list.index_of compares elements with Primitive::equals", "ok" if users else "violated",
            "no built-in calls Primitive::equals any more", run.span, fn=run.path, key="C13.value-equality|index_of-uses-equals")
+
+
+def element_store(F, rep):
+    """`xs[i] = v` / `m[k] = v` reach HeapPrimitive::set: in the ArrayPtr arm every Ok return passes the store of the *given* value into the
+    slot obtained from the list (get_mut / IndexMut on the borrowed Vec), in the MapPtr arm the insert of the given value: no path skips the
+    write (an elided write leaves two names for what should be one list)."""
+    import rules
+    from mir import op_local
+    from props import _cells
+    hs = F.fn("bytecode::variables::primitive::HeapPrimitive::set")
+    if hs is None:
+        raise AnchorMissing("HeapPrimitive::set")
+    adt = F.adt("bytecode::variables::primitive::HeapPrimitive")
+    names = [v["name"] for v in adt["variants"]]
+    t0 = None
+    for bi, blk in enumerate(hs.blocks):
+        if blk["t"]["k"] == "switch":
+            t0 = bi
+            break
+    if t0 is None:
+        raise AnchorMissing("match on self in HeapPrimitive::set")
+    okret = [bi for bi, si, dst, rv, s in hs.assigns() if dst["l"] == 0 and "agg" in rv and rv["agg"].get("v") == "Ok"]
+    for arm, what in (("ArrayPtr", "list element"), ("MapPtr", "map entry")):
+        tgt = _cells.variant_edge(hs, t0, names.index(arm))
+        others = {x for x in hs.succs(t0) if x != tgt}
+        reg = hs.reachable(tgt, removed_blocks=others)
+        if arm == "ArrayPtr":
+            # the store `*slot = new_val`: an assignment through a deref whose value is the parameter
+            stores = [bi for bi, si, dst, rv, s in hs.assigns() if bi in reg and dst.get("p") and dst["p"][0][0] == "deref" and "use" in rv
+                      and op_local(rv["use"]) is not None and rules.trace_paths(hs, op_local(rv["use"]), transparent=set()) == {(("arg", 2), ())}]
+            slot_ok = True
+            for bi, si, dst, rv, s in hs.assigns():
+                if bi in stores and dst.get("p"):
+                    oc = rules.origin_calls(hs, dst["l"], transparent=rules.TRANSPARENT | {"core::option::Option::unwrap", "core::option::Option::expect"})
+                    if not any(c.matches(("core::slice::<impl [T]>::get_mut", "core::ops::index::IndexMut::index_mut", "alloc::vec::Vec::get_mut")) for c in oc):
+                        slot_ok = False
+            blockers = set(stores)
+        else:
+            ins = [c for c in hs.calls() if c.bb in reg and c.callee().endswith("::insert")
+                   and len(c.args) >= 3 and rules.trace_paths(hs, op_local(c.args[2]), transparent=set()) == {(("arg", 2), ())}]
+            blockers = {c.bb for c in ins}
+            slot_ok = True
+        through = bool(blockers) and all(b not in hs.reachable(tgt, removed_blocks=blockers) for b in okret)
+        rep.ob("C13.element-store", "HeapPrimitive::set (%s): an assignment to a %s stores the given value on every path" % (arm, what),
+               "ok" if through and slot_ok else "violated",
+               "store of the parameter on every Ok path=%s slot from the container=%s" % (through, slot_ok), hs.span, fn=hs.path,
+               key="C13.element-store|HeapPrimitive::set|%s" % arm)
